@@ -4,7 +4,7 @@ rewrite seeded/RESULTS.md.  Applies each patch to /repo and restores it afterwar
    seeded_matrix.py [name-prefix ...]"""
 import json, os, subprocess, sys, time
 V = "/verif"; S = os.path.join(V, "seeded")
-EXTRA = {"C04-rearm-without-barrier": ["C01"], "C15-pts-move-keeps-offset": ["C09"], "C16-reducible-init-active-only": ["C15"]}
+EXTRA = {"C04-rearm-without-barrier": ["C01"], "C02-outedges-adaptor-no-acquire": ["C10"], "C04-idle-nonleader-skips-abort-queue": ["C01"], "C18-bitset-range-reset-off-by-one": ["C15"], "C15-pts-move-keeps-offset": ["C09"], "C16-reducible-init-active-only": ["C15"]}
 
 def sh(cmd, timeout=2400):
     p = subprocess.run(cmd, shell=True, stdout=subprocess.PIPE, stderr=subprocess.STDOUT, text=True, timeout=timeout)
@@ -47,8 +47,9 @@ def main():
             if not isinstance(r, dict): continue
             if r.get("exit") == 1:
                 cells.append("%s: **caught** (%s)" % (cid, ", ".join(sorted(set(s.split("|")[1] for s in r.get("signatures", []) if "|" in s))[:3])))
-            elif r.get("exit") == 2 and r.get("signatures"):
-                cells.append("%s: **caught** (%s; exit 2: one further alarm of the batch did not reproduce from its record)" % (cid, ", ".join(sorted(set(s.split("|")[1] for s in r.get("signatures", []) if "|" in s))[:3])))
+            elif r.get("exit") in (2, 124) and r.get("signatures"):
+                why = "exit 2: one further alarm of the batch did not reproduce from its record" if r.get("exit") == 2 else "the matrix's 25-minute limit ended the check while it was still minimising"
+                cells.append("%s: **caught** (%s; %s)" % (cid, ", ".join(sorted(set(s.split("|")[1] for s in r.get("signatures", []) if "|" in s))[:3]), why))
             else:
                 cells.append("%s: missed%s" % (cid, " (exit %s)" % r.get("exit") if r.get("exit") not in (0, None) else ""))
         change = (m.get("change") or m.get("summary") or m.get("what") or "")
